@@ -126,9 +126,10 @@ pub fn run_sweep<E: Elem>(seed: u64, cfg: &ArrayCfg, mut j: Journal<'_>, only_va
         return outs;
     }
     // 2. the operation under the sweep
-    let variants: Vec<Step> = if cfg.profile == Profile::C12 {
+    let split_sweep = matches!(cfg.profile, Profile::C12 | Profile::C07);
+    let variants: Vec<Step> = if split_sweep {
         let (c, r) = eng.model.size();
-        let which = rng.below(5);
+        let which = if cfg.profile == Profile::C07 { rng.below(4) } else { rng.below(5) };
         let line = match which {
             0 | 1 => c,
             2 | 3 => r,
@@ -153,7 +154,8 @@ pub fn run_sweep<E: Elem>(seed: u64, cfg: &ArrayCfg, mut j: Journal<'_>, only_va
                     }
                     front_turn = !front_turn;
                 }
-                let script = Script { acts, leak: true };
+                // C12 leaks the guard after the split, C07 drops it
+                let script = Script { acts, leak: cfg.profile == Profile::C12 };
                 let op = match which {
                     0 => Op::RemoveRow { idx: idx_r, script },
                     1 => Op::PopRow { script },
@@ -163,6 +165,11 @@ pub fn run_sweep<E: Elem>(seed: u64, cfg: &ArrayCfg, mut j: Journal<'_>, only_va
                 };
                 v.push(Step { op, fault: None });
             }
+        }
+        if v.len() > 120 {
+            // long lines (large shapes): an evenly spaced sample of the splits
+            let k = (v.len() + 119) / 120;
+            v = v.into_iter().step_by(k).collect();
         }
         v
     } else {
@@ -212,7 +219,7 @@ pub fn run_sweep<E: Elem>(seed: u64, cfg: &ArrayCfg, mut j: Journal<'_>, only_va
             v = gen_and_exec(&mut eng, &mut srng, &quiet, suffix_len, &mut done, &mut j);
         }
         let mut o = finish(eng, done, cfg.flavour, cfg.alloc_mode, v);
-        o.fault_runs = true;
+        o.fault_runs = cfg.profile != Profile::C07;
         let stop = o.viol.is_some();
         outs.push(o);
         if stop {
